@@ -136,16 +136,58 @@ pub fn check(c: &Case, st: &mut Stats) -> Check {
                 None => vfail!("payload starting with the Gh0st magic not answered over {}: {}", tr, hex(&bytes[..bytes.len().min(40)])),
             };
             st.sample(|| json!({"gh0st_request_len": bytes.len(), "reply": hex(&a)}));
-            vensure!(a.starts_with(b"Gh0st"), "Gh0st reply does not start with the magic: {}", hex(&a[..a.len().min(40)]));
-            vensure!(a.len() >= 13, "Gh0st reply shorter than its header ({} bytes)", a.len());
-            let total = le32(&a, 5) as usize;
-            let ulen = le32(&a, 9) as usize;
-            vensure!(total == a.len(), "Gh0st frame declares total length {} but is {} bytes long", total, a.len());
-            let body = inflate(&a[13..]).map_err(|e| Failure::new(format!("Gh0st body does not inflate: {} ({})", e, hex(&a))))?;
-            vensure!(body.len() == ulen, "Gh0st frame declares {} uncompressed bytes, body inflates to {}", ulen, body.len());
-            Ok(())
+            ghost_reply_ok(&a)
         }
     }
+}
+
+pub fn ghost_reply_ok(a: &[u8]) -> Check {
+    vensure!(a.starts_with(b"Gh0st"), "Gh0st reply does not start with the magic: {}", hex(&a[..a.len().min(40)]));
+    vensure!(a.len() >= 13, "Gh0st reply shorter than its header ({} bytes)", a.len());
+    let total = le32(a, 5) as usize;
+    let ulen = le32(a, 9) as usize;
+    vensure!(total == a.len(), "Gh0st frame declares total length {} but is {} bytes long", total, a.len());
+    let body = inflate(&a[13..]).map_err(|e| Failure::new(format!("Gh0st body does not inflate: {} ({})", e, hex(a))))?;
+    vensure!(body.len() == ulen, "Gh0st frame declares {} uncompressed bytes, body inflates to {}", ulen, body.len());
+    Ok(())
+}
+
+// ---------------------------------------------------------------------------------------
+// Gh0st connections: the bot keeps talking on the connection it opened; every packet that
+// starts with the magic is a payload starting with the magic
+
+#[derive(Clone, Debug, Serialize, Deserialize, PartialEq)]
+pub struct GhostFlow {
+    pub scn: Scenario,
+    pub sport: u16,
+    pub dport: u16,
+    pub pkts: Vec<Hex>,
+}
+
+pub fn ghost_flow_check(c: &GhostFlow, st: &mut Stats) -> Check {
+    use crate::vf::session::*;
+    Sut::reset();
+    st.eval();
+    let sut = Sut::new(&c.scn.cfg);
+    let mut stream = Vec::new();
+    let mut lens = Vec::new();
+    for p in &c.pkts {
+        lens.push(p.len());
+        stream.extend_from_slice(p);
+    }
+    let flow = Flow { net: c.scn.net.clone(), sport: c.sport, dport: c.dport };
+    st.frames(1 + lens.len() as u64);
+    let replies = deliver(&sut, &flow, 99, &stream, &lens).map_err(Failure::new)?;
+    st.class(&format!("gh0st-connection:{}-packets", c.pkts.len()));
+    st.nontrivial_hash(fnv(&stream) ^ 0x6805);
+    for (i, rp) in replies.iter().enumerate() {
+        match rp {
+            SegReply::Data(a) => ghost_reply_ok(a).map_err(|f| Failure::new(format!("packet #{} of the connection: {}", i, f.msg)))?,
+            SegReply::Other(o) if o.starts_with("panic") => return Err(Failure::keyed("panic", o.clone())),
+            other => vfail!("packet #{} of a Gh0st connection (a payload starting with the magic) not answered: {:?}; packet {}", i, other, hex(&c.pkts[i][..c.pkts[i].len().min(40)])),
+        }
+    }
+    Ok(())
 }
 
 // ---------------------------------------------------------------------------------------
@@ -243,18 +285,21 @@ impl Prop for C18 {
         "C18"
     }
     fn rule(&self) -> &'static str {
-        "cases = client identification strings 'SSH-' ('2.0'|'1.99') [0-9.]* '-' software [SP comment] CR LF [tail] with software 1..79 and comment 0..79 arbitrary bytes (NUL, high bytes, lone CR at every position, bare LF; SP switches to the comment), over UDP and over one segment of a handshaken TCP flow, both IP versions, log levels Off..Trace; negatives: every CR LF pair removed (nothing / LF only / trailing lone CR / LF LF), a character other than digit, dot or dash in the version field, missing second dash; Gh0st magic + 0..299 arbitrary bytes, Gh0st header with consistent / lying length fields, and real client packets (header + zlib stream of a command token followed by 0..419 structure bytes, login token 0x66 weighted, compression levels 0..9). Flows: a valid identification string followed on the same TCP flow by 1..4 segments that hold no CR and no LF (binary packets with KEXINIT-like framing, text, 'SSH-2.0-...' without line end), or an unterminated first segment followed by the same: only the identification string may be answered with an SSH banner. Oracle: positive => application reply exactly 'SSH-2.0-1\\r\\n'; negative => none; Gh0st => reply starts with the magic, LE32 at offset 5 = frame length, LE32 at offset 9 = U, zlib-inflating the remainder (flate2's decoder, whole input consumed) yields exactly U bytes. Non-trivial = every case; distinct by hash of (bytes, transport)."
+        "cases = client identification strings 'SSH-' ('2.0'|'1.99') [0-9.]* '-' software [SP comment] CR LF [tail] with software 1..79 and comment 0..79 arbitrary bytes (NUL, high bytes, lone CR at every position, bare LF; SP switches to the comment), over UDP and over one segment of a handshaken TCP flow, both IP versions, log levels Off..Trace; negatives: every CR LF pair removed (nothing / LF only / trailing lone CR / LF LF), a character other than digit, dot or dash in the version field, missing second dash; Gh0st magic + 0..299 arbitrary bytes, Gh0st header with consistent / lying length fields, and real client packets (header + zlib stream of a command token followed by 0..419 structure bytes, login token 0x66 weighted, compression levels 0..9). Flows: a valid identification string followed on the same TCP flow by 1..4 segments that hold no CR and no LF (binary packets with KEXINIT-like framing, text, 'SSH-2.0-...' without line end), or an unterminated first segment followed by the same: only the identification string may be answered with an SSH banner. Gh0st connections: 2..3 packets, one per segment of one connection, each answered with a valid frame. Oracle: positive => application reply exactly 'SSH-2.0-1\\r\\n'; negative => none; Gh0st => reply starts with the magic, LE32 at offset 5 = frame length, LE32 at offset 9 = U, zlib-inflating the remainder (flate2's decoder, whole input consumed) yields exactly U bytes. Non-trivial = every case; distinct by hash of (bytes, transport)."
     }
     fn run(&self, ctx: &mut RunCtx) {
         let n = ctx.share(ctx.tier.n(800_000, 10_000_000));
         ctx.run_generated("banner", n, case_strategy(), check);
         let m = ctx.share(ctx.tier.n(200_000, 3_000_000));
         ctx.run_generated("flow", m, flow_strategy(), flow_check);
+        let g = ctx.share(ctx.tier.n(100_000, 1_500_000));
+        ctx.run_generated("gh0st-flow", g, (scenario_quiet(Fam::Any), port(), port(), vec(ghost_req(), 2..=3)).prop_map(|(scn, sport, dport, pkts)| GhostFlow { scn, sport, dport, pkts }), ghost_flow_check);
     }
     fn replay(&self, stream: &str, case: &Value, st: &mut Stats) -> Check {
         let bad = |e: serde_json::Error| Failure::new(format!("bad case: {}", e));
         match stream {
             "flow" => flow_check(&serde_json::from_value(case.clone()).map_err(bad)?, st),
+            "gh0st-flow" => ghost_flow_check(&serde_json::from_value(case.clone()).map_err(bad)?, st),
             _ => check(&serde_json::from_value(case.clone()).map_err(bad)?, st),
         }
     }
